@@ -59,14 +59,15 @@ theorem allIPs_configured (ps : List Pool) (ip : Nat) (h : ip ∈ allIPs ps) : c
   simp only [List.any_eq_true]
   exact ⟨p, hp, hh⟩
 
-/-- what a successful `ConfigurePool` leaves behind (no store delete may fail: the fault, if any, is spent) -/
+/-- what a successful `ConfigurePool` leaves behind: memory is rebuilt from the objects the store lists
+    (`listed s` = the regular ones and the orphans of earlier failed deletes) -/
 structure Reconfigured (s s' : State) (ps : List Pool) : Prop where
   pods : s'.pods = s.pods
   vPods : s'.vPods = s.vPods
   events : s'.events = s.events
   nextUid : s'.nextUid = s.nextUid
   pools : s'.pools = sortPools ps
-  alloc : ∀ j, Tbl.get s'.alloc j = if configured ps j then Tbl.get s.alloc j else none
+  alloc : ∀ j, Tbl.get s'.alloc j = if configured ps j then Tbl.get (listed s) j else none
   coherent : Coherent s'
 
 theorem configurePool_fail (s : State) (ps : List Pool) (hf : (configurePool s ps).2 = false) :
@@ -78,7 +79,28 @@ theorem configurePool_fail (s : State) (ps : List Pool) (hf : (configurePool s p
   · intro _; rfl
   · intro h; cases h
 
-theorem configurePool_ok (s : State) (ps : List Pool) (h : Coherent s) (hsp : s.fault = 0 ∨ s.fault ≤ s.calls + 1)
+/-- the deletes of ConfigurePool touch the orphans (and the call counter) only -/
+theorem dropAll_fields : ∀ (l : List IP) (s : State),
+    (dropAll s l).alloc = s.alloc ∧ (dropAll s l).store = s.store ∧ (dropAll s l).pools = s.pools ∧
+    (dropAll s l).pods = s.pods ∧ (dropAll s l).vPods = s.vPods ∧ (dropAll s l).events = s.events ∧
+    (dropAll s l).nextUid = s.nextUid ∧ (dropAll s l).plog = s.plog := by
+  intro l
+  induction l with
+  | nil => intro s; exact ⟨rfl, rfl, rfl, rfl, rfl, rfl, rfl, rfl⟩
+  | cons ip t ih =>
+    intro s
+    unfold dropAll
+    split
+    · exact ih _
+    · exact ih _
+
+theorem get_confKeep (s : State) (ps : List Pool) (j : IP) :
+    Tbl.get (confKeep s ps) j = if configured ps j then Tbl.get (listed s) j else none := by
+  unfold confKeep
+  rw [Tbl.get_dedup, Tbl.get_filter_key (listed s) (fun k => configured ps k) j]
+
+/-- `ConfigurePool` succeeded (the list call did not fail); a failing delete just leaves an orphan -/
+theorem configurePool_ok' (s : State) (ps : List Pool)
     (hok : (configurePool s ps).2 = true) : Reconfigured s (configurePool s ps).1 ps := by
   revert hok
   unfold configurePool
@@ -86,61 +108,41 @@ theorem configurePool_ok (s : State) (ps : List Pool) (h : Coherent s) (hsp : s.
   split
   · intro h; cases h
   · intro _
-    have hspent : FaultSpent (confBase s.api.1 (sortPools ps)) := by
-      unfold FaultSpent confBase; simp only [State.api]; omega
-    have d := deleteAll_step (confDrop s.api.1 (sortPools ps)) (confBase s.api.1 (sortPools ps))
-    have dg := deleteAll_get (confDrop s.api.1 (sortPools ps)) (confBase s.api.1 (sortPools ps)) hspent
-    have hbase : (confBase s.api.1 (sortPools ps)).alloc = List.filter (fun e => configured (sortPools ps) e.1) s.store := rfl
-    have hbs : (confBase s.api.1 (sortPools ps)).store = s.store := rfl
-    have hbp : (confBase s.api.1 (sortPools ps)).pools = sortPools ps := rfl
-    have halloc : ∀ j, Tbl.get (List.filter (fun e => configured (sortPools ps) e.1) s.store) j =
-        if configured ps j then Tbl.get s.alloc j else none := by
-      intro j
-      rw [Tbl.get_filter_key s.store (fun k => configured (sortPools ps) k) j, configured_sortPools, h.agree]
-    refine ⟨d.frame.pods, d.frame.vPods, d.frame.events, d.frame.nextUid, d.frame.pools.trans hbp, fun j => ?_, ?_⟩
-    · show Tbl.get (deleteAll _ _).alloc j = _
-      rw [d.alloc, hbase]; exact halloc j
+    have d := dropAll_fields (confDrop s.api.1 (sortPools ps)) (confBase s.api.1 (sortPools ps))
+    have hkeep : ∀ j, Tbl.get (confKeep s.api.1 (sortPools ps)) j = if configured ps j then Tbl.get (listed s) j else none := by
+      intro j; rw [get_confKeep, configured_sortPools]; rfl
+    refine ⟨d.2.2.2.1, d.2.2.2.2.1, d.2.2.2.2.2.1, d.2.2.2.2.2.2.1, d.2.2.1, fun j => ?_, ?_⟩
+    · show Tbl.get (dropAll _ _).alloc j = _
+      rw [d.1]; exact hkeep j
     · refine ⟨fun j => ?_, fun j hj => ?_, fun j r hj => ?_, fun j hj => ?_, ?_, ?_⟩
-      rotate_left 4
-      · show (Tbl.keys (deleteAll _ _).alloc).Nodup
-        rw [d.alloc, hbase]; exact Tbl.nodup_keys_filter _ h.storeNodup
-      · show (Tbl.keys (deleteAll _ _).store).Nodup
-        exact deleteAll_storeNodup _ _ (by rw [hbs]; exact h.storeNodup)
-      · show Tbl.get (deleteAll _ _).store j = Tbl.get (deleteAll _ _).alloc j
-        rw [d.alloc, dg j, hbase, hbs, halloc j, ← h.agree]
-        by_cases hc : configured ps j = true
-        · have hnd : j ∉ confDrop s.api.1 (sortPools ps) := by
-            intro hm
-            simp only [confDrop, List.mem_map, List.mem_filter] at hm
-            obtain ⟨e, ⟨_, he⟩, hej⟩ := hm
-            rw [hej, configured_sortPools, hc] at he; simp at he
-          simp [hnd, hc]
-        · have hc' : configured ps j = false := by simpa using hc
-          simp only [hc', Bool.false_eq_true, if_false]
-          split
-          · rfl
-          · rename_i hnd
-            cases hg : Tbl.get s.store j with
-            | none => rfl
-            | some v =>
-              exfalso; apply hnd
-              simp only [confDrop, List.mem_map, List.mem_filter]
-              exact ⟨(j, v), ⟨Tbl.get_mem hg, by simp [configured_sortPools, hc']⟩, rfl⟩
-      · show Tbl.get (deleteAll _ _).alloc j = none
-        rw [d.alloc, hbase]
+      · show Tbl.get (dropAll _ _).store j = Tbl.get (dropAll _ _).alloc j
+        rw [d.1, d.2.1]; rfl
+      · show Tbl.get (dropAll _ _).alloc j = none
+        rw [d.1]
         have hj' : j ∈ confFree s.api.1 (sortPools ps) := hj
         have := (List.mem_filter.mp hj').2
+        show Tbl.get (confKeep s.api.1 (sortPools ps)) j = none
         simpa using this
-      · show configured (deleteAll _ _).pools j = true
-        rw [d.frame.pools, hbp]
-        have hj' : Tbl.get (deleteAll _ _).alloc j = some r := hj
-        rw [d.alloc, hbase, Tbl.get_filter_key s.store (fun k => configured (sortPools ps) k) j] at hj'
+      · show configured (dropAll _ _).pools j = true
+        rw [d.2.2.1]
+        have hj' : Tbl.get (dropAll _ _).alloc j = some r := hj
+        rw [d.1] at hj'
+        have hj'' : Tbl.get (confKeep s.api.1 (sortPools ps)) j = some r := hj'
+        rw [get_confKeep] at hj''
         by_cases hc : configured (sortPools ps) j = true
         · exact hc
-        · simp [hc] at hj'
-      · show configured (deleteAll _ _).pools j = true
-        rw [d.frame.pools, hbp]
+        · simp [hc] at hj''
+      · show configured (dropAll _ _).pools j = true
+        rw [d.2.2.1]
         have hj' : j ∈ confFree s.api.1 (sortPools ps) := hj
         exact allIPs_configured _ _ (List.mem_filter.mp hj').1
+      · show (Tbl.keys (dropAll _ _).alloc).Nodup
+        rw [d.1]; exact Tbl.nodup_keys_dedup _
+      · show (Tbl.keys (dropAll _ _).store).Nodup
+        rw [d.2.1]; exact Tbl.nodup_keys_dedup _
+
+/-- earlier signature (the two hypotheses are no longer needed), kept so that callers need no change -/
+theorem configurePool_ok (s : State) (ps : List Pool) (_h : Coherent s) (_hsp : s.fault = 0 ∨ s.fault ≤ s.calls + 1)
+    (hok : (configurePool s ps).2 = true) : Reconfigured s (configurePool s ps).1 ps := configurePool_ok' s ps hok
 
 end Galaxy.Plugin
